@@ -3,7 +3,8 @@
 
 case = {"n": ranks, "dz"/"da": leaf defaults, "z"/"a": tree literals, "U": [bool per rank of a],
         "shape": [per rank], "body": [[path, act]...]}
-act  = ["desc"] (interior: run the nested populate loop) | ["none"] | ["assign", v] | ["add", v]
+act  = ["desc"] (interior: run the nested populate loop) | ["refbelow", pt, w] (interior:
+       getPayloadRef(*pt) on the offered sub-fiber, then w) | ["none"] | ["assign", v] | ["add", v]
        (leaf: what is done through the reference); paths not listed are left alone.
 observation = [a state before, z state before, [event...], z state after, a state after]
 event = [path, a's payload, z's payload as handed out, z state at the yield, active range of z's fiber]
@@ -17,8 +18,10 @@ import store_hist as H
 
 ID = "C05"
 THEOREMS = ["C05_positions", "C05_generator_position_free", "C05_offers", "C05_offers_meaning", "C05_result",
-            "C05_outside_content", "C05_outside_untouched", "C05_no_residue", "C05_raw_all_levels", "C05_wf",
-            "C05_source_pure", "C05_model_meets_spec_partial"]
+            "C05_outside_content", "C05_outside_untouched", "C05_no_residue", "C05_no_residue_ext",
+            "C05_no_residue_refbelow_refuted", "C05_raw_all_levels",
+            "C05_raw_meaning", "C05_outside_untouched_levels", "C05_no_residue_levels", "C05_wf",
+            "C05_throughout", "C05_source_pure", "C05_model_meets_spec"]
 COQ_IMPORTS = ("From FT Require Import Model.Base Model.Obs Model.Store Model.StoreCheck "
                "Model.C05Populate Model.C05PopulateCheck.")
 CHECK_VO = ["Model/C05PopulateCheck.v"]
@@ -64,7 +67,7 @@ def presents(aes, lvl, case):
     return [(c, s) for c, s in aes if not U.is_empty_lit(s, da)]
 
 
-def gen_body(rng, case, p_desc=0.85):
+def gen_body(rng, case, p_desc=0.8, p_ref=0.0):
     n, dz = case["n"], case["dz"]
     body = []
     mode = rng.choice(["mixed", "mixed", "mixed", "all-write", "all-leave", "all-default"])
@@ -91,33 +94,43 @@ def gen_body(rng, case, p_desc=0.85):
                 else:
                     body.append([p, ["add", rng.choice([0, 1, 2, -1, 4])]])
             else:
-                if rng.random() < p_desc:
+                r = rng.random()
+                if r < p_ref:
+                    # getPayloadRef of a full point below the offered reference, then a write
+                    pt = [rng.randint(0, case["shape"][j] - 1) for j in range(lvl + 1, n)]
+                    w = rng.choice([["assign", dz], ["assign", dz], ["none"], ["add", 0], ["assign", 5], ["add", 2]])
+                    body.append([p, ["refbelow", pt, w]])
+                elif r < p_ref + p_desc:
                     body.append([p, ["desc"]])
                     nest(s, lvl + 1, p)
     nest(case["a"], 0, [])
     return body
 
 
-def merge_lit(z, a, rng, dz):
-    """z plus an element for every element of a (superset)"""
+def merge_lit(z, a, rng, dz, vals=None, keep=1.0):
+    """z plus an element for (a fraction `keep` of) the elements of a"""
+    vals = vals or [dz, 3, 6]
     dzs = dict((c, s) for c, s in z)
     for c, s in a:
+        if rng.random() > keep:
+            continue
         if isinstance(s, int):
-            if c not in dzs:
-                dzs[c] = rng.choice([dz, 3, 6])
+            if c not in dzs or vals[0] == vals[1]:
+                dzs[c] = rng.choice(vals)
         else:
-            dzs[c] = merge_lit(dzs.get(c, []), s, rng, dz)
+            dzs[c] = merge_lit(dzs.get(c, []), s, rng, dz, vals, keep)
     return [[c, dzs[c]] for c in sorted(dzs)]
 
 
-def gen_case(rng, n=None, mode=None, maxshape=None):
+def gen_case(rng, n=None, mode=None, maxshape=None, p_ref=0.0):
     n = n or rng.choice([1, 2, 2, 3])
     hi = maxshape or {1: 7, 2: 5, 3: 3}[n]
     shape = [rng.randint(2, hi) for _ in range(n)]
     dz = rng.choice([0, 0, 0, 2])
     da = rng.choice([0, 0, 0, 1])
     a = U.gen_fiber(rng, n, shape, da, p_absent=rng.choice([0.0, 0.2, 0.4, 0.6, 0.9]))
-    mode = mode or rng.choice(["empty", "random", "random", "disjoint", "superset", "same-shape"])
+    mode = mode or rng.choice(["empty", "random", "random", "disjoint", "superset", "same-shape",
+                               "dflt-offered", "dflt-offered"])
     z = U.gen_fiber(rng, n, shape, dz)
     if mode == "empty":
         z = []
@@ -128,15 +141,22 @@ def gen_case(rng, n=None, mode=None, maxshape=None):
         z = merge_lit(z, a, rng, dz)
     elif mode == "same-shape":
         z = merge_lit([], a, rng, dz)
+    elif mode == "dflt-offered":
+        # explicit defaults of z at coordinates a offers (the body often leaves them), other
+        # elements of z in between and after
+        z = merge_lit(z, a, rng, dz, vals=[dz, dz, dz, 4], keep=0.6)
     us = [rng.random() < 0.2 for _ in range(n)] if rng.random() < 0.5 else [False] * n
     case = {"n": n, "dz": dz, "da": da, "z": z, "a": a, "U": us, "shape": shape, "body": [], "zmode": mode}
-    case["body"] = gen_body(rng, case)
+    case["body"] = gen_body(rng, case, p_ref=p_ref)
     return case
 
 
 def streams(tier, rng):
     nq = 260 if tier == "quick" else 3000
     yield ("random", [gen_case(rng) for _ in range(nq)], False)
+    # bodies that also call getPayloadRef below an offered interior reference (often writing the default)
+    nr = 120 if tier == "quick" else 1500
+    yield ("refbelow", [gen_case(rng, n=rng.choice([2, 3, 3]), p_ref=0.4) for _ in range(nr)], False)
     # single-level destination fibers with every class of element against a fixed source and every body
     cases = []
     elems = [None, 0, 4]                       # absent / explicit default / value
@@ -167,6 +187,7 @@ def describe(case):
             "z_explicit_default": U.has_explicit_default(case["z"], case["dz"]),
             "z_empty_subfiber": U.has_empty_sub(case["z"], case["dz"]),
             "writes_default": any(a[0] == "assign" and a[1] == case["dz"] for _, a in case["body"]),
+            "refbelow": any(a[0] == "refbelow" for _, a in case["body"]),
             "offered": min(len(case["body"]), 9)}
 
 
@@ -205,6 +226,8 @@ def act_coq(a):
         return "ADescend"
     if k == "skip":
         return "ASkip"
+    if k == "refbelow":
+        return "(ARefBelow %s %s)" % (L.zlist(a[1]), H.w_coq(a[2]))
     return "(AWrite %s)" % H.w_coq(a)
 
 
@@ -253,6 +276,8 @@ def run_impl(case):
                     H.apply_w(zr, a)
             elif a[0] == "desc":
                 nest(zr, av, lvl + 1, p)
+            elif a[0] == "refbelow":
+                H.apply_w(zr.getPayloadRef(*a[1]), a[2])
     try:
         nest(Z.getRoot(), A.getRoot(), 0, [])
     except AssertionError:
